@@ -71,10 +71,32 @@ func describeParse(stmts []parser.Statement, err error) string {
 func runCall(c histCall, shared *pql.CompileOptions) string {
 	switch c.Kind {
 	case "scan":
-		return describeTokens(c.Src, parser.Scan(c.Src))
+		toks := parser.Scan(c.Src)
+		d := describeTokens(c.Src, toks)
+		// the result is the caller's: what it does with it concerns nobody else
+		for i := range toks {
+			toks[i] = parser.Token{Kind: parser.TokenError, Value: "scribbled"}
+		}
+		return d
 	case "parse":
 		stmts, err := parser.Parse(c.Src)
-		return describeParse(stmts, err)
+		d := describeParse(stmts, err)
+		for i, st := range stmts {
+			switch st := st.(type) {
+			case *parser.TabularExpr:
+				if st != nil {
+					st.Operators = nil
+					st.Source = nil
+				}
+			case *parser.LetStatement:
+				if st != nil {
+					st.X = nil
+					st.Name = nil
+				}
+			}
+			stmts[i] = nil
+		}
+		return d
 	}
 	var sql string
 	var err error
@@ -362,7 +384,7 @@ func TestC14Histories(t *testing.T) {
 			fmt.Sprintf("let %s = %d; T | where a > %s | take 3", fresh, rapid.IntRange(1, 9).Draw(rt, "freshval"), fresh),
 			fmt.Sprintf("T | where %s > 3 | project %s, b | take lim", fresh, fresh))
 		for i, n := 0, rapid.IntRange(2, 6).Draw(rt, "npool"); i < n; i++ {
-			switch rapid.IntRange(0, 10).Draw(rt, "srckind") {
+			switch rapid.IntRange(0, 11).Draw(rt, "srckind") {
 			case 9:
 				// many operators: any limit or table keyed by their number is the
 				// same whatever options value the call goes through
@@ -396,8 +418,15 @@ func TestC14Histories(t *testing.T) {
 				pool = append(pool, fmt.Sprintf("let %s = %d; T | where a == %s and b < p1 | take lim", p, rapid.IntRange(0, 9).Draw(rt, "v"), p))
 			case 1:
 				pool = append(pool, "T | where not(isnull(a)) and tolower(b) == strcat('x', c) | summarize n = countif(iff(a > 1, true, false)), count() by now()")
+			case 11:
+				// a built-in's name in another letter case is some other function
+				w := rapid.SampledFrom([]string{"Not", "IsNull", "NOT", "Iff", "StrCat", "ToLower", "Count", "isNull", "CountIf", "Now", "IsNotNull", "TOUPPER"}).Draw(rt, "casedbuiltin")
+				pool = append(pool, fmt.Sprintf("T | where %s(a) == b | extend c = 2 * %s(a, 1) | summarize %s(b) by k", w, w, w))
 			case 2:
-				pool = append(pool, "T | join kind=bogus (U) on k")
+				// failures at different stages of a join's compilation, next to
+				// joins that compile
+				pool = append(pool, rapid.SampledFrom([]string{"T | join kind=bogus (U) on k", "T | join (U) on not(a, b)", "T | join (U | where isnull()) on k", "Logs | join kind=leftouter (Users) on $left.id == $right.id, strcat()"}).Draw(rt, "badjoin"),
+					"Events | where a > 1 | join kind=inner (Other | where b < 2) on k | count")
 			case 3:
 				pool = append(pool, "T | where ( a ) == "+rapid.SampledFrom(names).Draw(rt, "pname")+" | top lim by a")
 			case 4:
